@@ -33,7 +33,7 @@ CLAIMS = {
         note="trusted: scc_partition; states are copied attribute by attribute (attribute set asserted)"),
     "C07": dict(category="exploration", design="4/C07",
         technique="bounded-exhaustive enumeration of specifications x sizes x parameters and of rule forms x objects; oracle: plain enumeration of words / parse trees",
-        text="Every specification of the corpus (W incl. marked words with a three-to-one rule, G incl. reverse-needed universes, every rule database): generated objects == plain enumeration, no repetition, number == the specification's own count, for all sizes <= N and parameter tuples in either keyword order. Every interruption point of one generation / counting call followed by a retry on the same specification. Every rule form with object maps (plain, equivalence, reverse-of-equivalence, equivalence paths): backward(forward(o)) == o for every parent object, parts in the children, forward(backward(parts)) == parts for every admissible tuple.",
+        text="Every specification of the corpus (W incl. marked words with a three-to-one rule, G incl. reverse-needed universes, every rule database): generated objects == plain enumeration, no repetition, number == the specification's own count, for all sizes <= N and parameter tuples in either keyword order. A second pass on a fresh copy asks size by size every class of the specification children first (also for absent parameter values) and compares every class, not only the root, with the plain enumeration. Every interruption point of one generation / counting call followed by a retry on the same specification. Every rule form with object maps (plain, equivalence, reverse-of-equivalence, equivalence paths): backward(forward(o)) == o for every parent object, parts in the children, forward(backward(parts)) == parts for every admissible tuple.",
         note="exhaustive over the stated finite families only"),
     "C08": dict(category="model_checking", design="4/C08",
         technique="exhaustive enumeration of the decisions of the random number generator (every draw value, every stub pick, every final choice) with exact Fraction arithmetic; end-to-end decision trees for small sizes",
@@ -49,19 +49,19 @@ CLAIMS = {
         note="only the first computation of each level is observable (terms are cached)"),
     "C11": dict(category="model_checking", design="4/C11",
         technique="explicit-state enumeration of all insertion orders of small rule universes through the real TableMethod + ForestRuleExtractor; observed extractors of real forest searches; oracle: independent least fixed point",
-        text="Every duplicate-free sequence of <= 3 (4) keys from an alphabet of 3-label keys in all bucket assignments with a pumping root, and every forest run of the search lattice: extracted keys are inserted keys, one rule per parent, closed, productive for the root by the independent LFP, minimal (no single rule removable), no REVERSE key when productive without; every extracted key of a real run is turned back into a rule with that key.",
+        text="Every duplicate-free sequence of <= 3 (4) keys from an alphabet of 3-label keys in all bucket assignments with a pumping root (the rule set is extracted from the same table after every insertion from the moment the root pumps), and every forest run of the search lattice: extracted keys are inserted keys, one rule per parent, closed, productive for the root by the independent LFP, minimal (no single rule removable), no REVERSE key when productive without; every extracted key of a real run is turned back into a rule with that key.",
         note="trusted: lfp_terms oracle"),
     "C12": dict(category="exploration", design="4/C12",
         technique="bounded-exhaustive enumeration of ordered pairs of specifications; oracle: plain enumeration of both root classes, object by object",
-        text="All ordered pairs of the distinct specifications of a bounded family (W under three rule databases with/without a statistic, all pattern sets of <= 2 words of length 3, G grammars; every 7th pair after a JSON round trip): (plus the regular languages with <= 2 DFA states decomposed from the left or from the right) a returned bijection maps the objects of the first root one-to-one onto those of the second for all sizes <= N with a two-sided inverse; check is symmetric and reflexive.",
+        text="All ordered pairs of the distinct specifications of a bounded family (W under three rule databases with/without a statistic, all pattern sets of <= 2 words of length 3, G grammars; every 7th pair after a JSON round trip): (plus the regular languages with <= 2 DFA states decomposed from the left or from the right) a returned bijection maps the objects of the first root one-to-one onto those of the second for all sizes <= N with a two-sided inverse; check is symmetric and reflexive. The family includes specifications with non-atomic verified leaves (facing atoms and decomposed classes).",
         note="each ordered pair judged independently"),
     "C13": dict(category="exploration", design="4/C13",
         technique="bounded-exhaustive enumeration of ordered pairs of searchers x both finder variants; oracles of C01/C02/C12 on the returned pair",
-        text="All ordered pairs of the quick start classes x packs {base, symmetry, inferral, two expansion sets,...} x {ParallelSpecFinder, EqPathParallelSpecFinder}, with fresh searchers and (for packs with alternative rules) with both universes fully expanded beforehand: find() returns None or two specifications, each valid for its own start class, isomorphic, with a valid bijection; no exception. Plus ordered pairs of the regular languages with <= 2 DFA states (R-domain: first-letter / last-letter decompositions, alternative rules, shared classes, restricted strategy variants) and of the 3-state languages with equal counts up to size 6 (quick: every 12th pair).",
+        text="All ordered pairs of the quick start classes x packs {base, symmetry, inferral, two expansion sets,...} x {ParallelSpecFinder, EqPathParallelSpecFinder}, with fresh searchers and (for packs with alternative rules) with both universes fully expanded beforehand: find() returns None or two specifications, each valid for its own start class, isomorphic, with a valid bijection; no exception. Plus ordered pairs of the regular languages with <= 2 DFA states (R-domain: first-letter / last-letter decompositions, alternative rules, shared classes, restricted strategy variants) and of the 3-state languages with equal counts up to size 6 (quick: every 12th pair). Plus ordered pairs of finite table universes (T-domain: classes equivalent to an atom that also decompose, shared between two parents; oracle: counting polynomial by recursion over the table, isomorphism both ways).",
         note="RuleDB only (the finder supports nothing else)"),
     "C14": dict(category="model_checking", design="4/C14",
         technique="lock-step runs of the two rule databases on the same controlled schedule with an observer after every insertion",
-        text="Every configuration is run with RuleDB and RuleDBForgetStrategy under the same schedule; after every insertion: add stream, verified labels, has_specification, stored keys, contains() for stored and all small non-stored keys (bool, true exactly on stored keys), and the strategy handed back for every stored key of a non-empty class re-applied. Packs include the same one-child key produced by a one-way and then by a two-way strategy and factory rules that only the children's applications reproduce; which store holds a key is observed and a strategy handed back from the two-way store must be two-way.",
+        text="Every configuration is run with RuleDB and RuleDBForgetStrategy under the same schedule (W-domain pack lattice incl. a factory whose first yielded strategy does not apply, and every one-nonterminal grammar of the parse-tree domain: rules with a repeated child); after every insertion: add stream, verified labels, has_specification, stored keys, contains() for stored and all small non-stored keys (bool, true exactly on stored keys), and the strategy handed back for every stored key of a non-empty class re-applied. Packs include the same one-child key produced by a one-way and then by a two-way strategy and factory rules that only the children's applications reproduce; which store holds a key is observed and a strategy handed back from the two-way store must be two-way.",
         note="queries with side effects (has_specification) are made identically on both; a second mode omits them"),
     "C15": dict(category="model_checking", design="4/C15",
         technique="explicit-state breadth-first search over operation histories of the real ClassDB (plain and compressed), closed state space; oracle: list-backed reference + invariants",
@@ -73,15 +73,15 @@ CLAIMS = {
         note="trusted: Monitor (self-tested)"),
     "C17": dict(category="fault_enumeration", design="4/C17",
         technique="crash-point enumeration: interruption of the real auto_search by the virtual clock at every work-packet count, pickle round trip, differential continuation",
-        text="For every configuration and every crash point k: interrupt, pickle, restore; restored == original, equal canonical universes, identical continuation (packet streams, universes, specification) to the end and through further interruption points; interrupted-then-resumed equals uninterrupted with the same check point; final specification passes C01/C02. Hosts the reduction-conformance run of the clock (one leap at every time() call). For a sub-family the time limit also expires just before every single time() call of the run (any call site) and the search is resumed.",
+        text="For every configuration and every crash point k: interrupt, pickle, restore; restored == original, equal canonical universes, identical continuation (packet streams, universes, specification) to the end and through further interruption points; interrupted-then-resumed equals uninterrupted with the same check point; final specification passes C01/C02. The quick plans include packs whose crash points hold a label twice in the working deque (counted in the evidence). Every searcher that expand_comb_class builds (forest database seeded through its rule cache) is pickled right before it starts, compared with its restoration, and the expansion is continued with the restored searcher. Hosts the reduction-conformance run of the clock (one leap at every time() call). For a sub-family the time limit also expires just before every single time() call of the run (any call site) and the search is resumed.",
         note="horizon of 30 (60) work packets per configuration"),
     "C18": dict(category="exploration", design="4/C18",
         technique="bounded-exhaustive enumeration of serialisable artefacts of the corpus",
-        text="Every corpus specification, pack, strategy instance (created 6-8 ways), rule form of C09 and bijection of C12 is dumped to JSON text and reloaded: equality both ways and equal behaviour (counts, objects, equations, maps).",
+        text="Every corpus specification, pack, strategy and strategy-factory instance (created 6-9 ways, incl. subscripted generic aliases), rule form of C09 and bijection of C12 is dumped to JSON text and reloaded: equality both ways and equal behaviour (counts, objects, equations, maps). Specifications are also loaded from the dumped dictionary object itself and dumped again (repeatable).",
         note=""),
     "C19": dict(category="exploration", design="4/C19",
         technique="bounded-exhaustive enumeration of specifications with verified classes under every rule database; expand_verified under the virtual clock",
-        text="For every start class x VerifyByPrefix(S) (all S of <= 2 prefixes of length <= 2, and nested verification where the offered pack verifies a deeper class) x variants x rule databases: expand_verified() result passes C01/C02, has no expandable verified class left, shares no rule of the specification with the original when something was expanded; the original is unchanged and still counts correctly. Includes verified classes that can only be expanded through the retry with reverse rules, also under an original specification that already contains a reverse rule (parse-tree domain).",
+        text="For every start class x VerifyByPrefix(S) (all S of <= 2 prefixes of length <= 2, and nested verification where the offered pack verifies a deeper class) x variants x rule databases: expand_verified() result passes C01/C02, has no expandable verified class left, shares no rule of the specification with the original when something was expanded; the original is unchanged and still counts correctly. Every expand_comb_class call is observed: the pack used must be the one the class's own verification rule offers for that class (the offered pack depends on the class). Single classes are also expanded through expand_comb_class named by their label and by an equal but distinct class object. Includes verified classes that can only be expanded through the retry with reverse rules, also under an original specification that already contains a reverse rule (parse-tree domain).",
         note="the reverse-retry branch of expand_verified is not reached by the W-domain packs (stated in DESIGN limits)"),
     "C20": dict(category="exploration", design="4/C20",
         technique="bounded-exhaustive enumeration of equations of corpus specifications; oracle: true series by plain enumeration substituted positionally, coefficient comparison up to degree M; Taylor expansion of closed forms to order 12",
